@@ -12,6 +12,15 @@ Theorem C01_file_table_inside : forall f tag t, file_table f tag = Some t ->
 Proof. exact file_table_inside. Qed.
 Print Assumptions C01_file_table_inside.
 
+(* tie A for the test that decides it: the bounds test of FileFace::get_table_fn (regenerated from its body in src/FileFace.cpp, together
+   with the fact that exactly the directory's length is allocated, read and reported) lets through exactly the pairs inside the file, and
+   is the test the model above uses. *)
+From GR Require Import Gen.GenFile Proofs.GenAgreeFile.
+Theorem C01_file_table_bounds_tied : forall off len fl, (GenFile.file_table_refused off len fl = false <-> (off + len <= fl)%N) /\
+  GenFile.file_table_refused off len fl = ((fl <? off) || (fl - off <? len))%N.
+Proof. intros. split; [apply gen_file_table_bounds | reflexivity]. Qed.
+Print Assumptions C01_file_table_bounds_tied.
+
 (* … and opening reads exactly the 12-byte header and num_tables 16-byte entries, all inside the file. *)
 Theorem C01_open_file_inside : forall f ff, open_file f = Some ff ->
   length (ff_header ff) = 12%nat /\ length (ff_dir ff) = N.to_nat (ff_ntables ff * 16) /\ (12 + ff_ntables ff * 16 <= flen f)%N.
